@@ -159,6 +159,12 @@ def gen_pass(rng, thorough):
             if (nums[i] - phase) % 5 != 0:
                 prt[i] = rng.choice([0, 10, 49])
                 kind.append("bad-prt")
+    if rng.random() < 0.3:            # a reset line whose PRT word carries a (high) thermometer-like or garbage count
+        cand = [i for i in range(n) if (nums[i] - phase) % 5 == 0]
+        if len(cand) > 3:
+            for i in rng.sample(cand, rng.randint(1, 2)):
+                prt[i] = rng.choice([50, 51, 300, 613, 1023])
+                kind.append("bad-reset-high")
     if rng.random() < 0.3:
         for _ in range(rng.randint(1, 3)):
             ict[rng.randrange(n)] = rng.choice([0, 50, 99])
